@@ -6,7 +6,8 @@
     declaration order with array elements ascending, resolves every label and variable name to
     that address regardless of segment order, and accepts decimal and hexadecimal operands; the
     documented example programs compute the documented results."
-   Also the error typing of the TOY loader that property C15 uses ([toy_load_outcomes]).
+   Also the error typing of the TOY loader that property C15 uses ([toy_load_outcomes],
+   [toy_load_no_uncaught]).
 
    Only statements; every proof is [exact <lemma>] into Proofs/C19Proofs.v.
 
@@ -234,18 +235,38 @@ Print Assumptions segment_spec.
 (** ** 6. Error typing (used by C15) *)
 
 (* a failing load reports an error whose line number, when it has one, is the number of one of
-   the token lines; the error kinds of the tokenizer and of the RISC-V parser never occur, nor
-   does a memory address error (the loader checks the sizes first), and a memory size error
-   reports the configured size; an error that is not a parser error (PUncaught: Python's ValueError from int()) occurs only when
-   some literal on that line is a decimal string of more than 4300 characters *)
+   the token lines; the error kinds of the RISC-V parser never occur, nor does a memory address
+   error (the loader checks the sizes first), and a memory size error reports the configured
+   size; a syntax error (ParserSyntaxException raised for a literal that int() rejects) names a
+   line that carries a decimal literal of more than 4300 characters; an error that is not a
+   parser error (PUncaught) can only come from an address-type instruction without operand *)
 Theorem toy_load_outcomes : forall s toks s' e, toy_load s toks = (s', Some e) ->
   (forall ln, perr_line e = Some ln -> In ln (map fst toks)) /\
-  (match e with PSyntax _ | POdd _ | PVariable _ | PDataDup _ | PMemAddr _ => False
+  (match e with POdd _ | PVariable _ | PDataDup _ | PMemAddr _ => False
            | PMemSize w => w = t_size s | _ => True end) /\
-  (forall ln, e = PUncaught ln -> tokens_wf toks ->
-     exists x lit, In (ln, x) toks /\ In lit (line_literals x) /\ long_decimal lit).
+  (forall ln, e = PSyntax ln ->
+     exists x lit, In (ln, x) toks /\ In lit (line_literals x) /\ long_decimal lit) /\
+  (forall ln, e = PUncaught ln ->
+     exists inl op, In (ln, TLInstr inl op TNoOperand) toks /\ is_address_type op = true).
 Proof. exact toy_load_outcomes_lem. Qed.
 Print Assumptions toy_load_outcomes.
+
+(* ... which the tokenizer excludes: every failure of the loader is a parser error *)
+Theorem toy_load_no_uncaught : forall s toks s' e, tokens_wf toks ->
+  toy_load s toks = (s', Some e) -> forall ln, e <> PUncaught ln.
+Proof. exact toy_load_no_uncaught_lem. Qed.
+Print Assumptions toy_load_no_uncaught.
+
+(* conversely, a program that loads has no oversized decimal literal in a data line or as the
+   operand of an address-type instruction *)
+Theorem toy_load_ok_literals : forall s toks s' data text labels ins,
+  toy_load s toks = (s', None) ->
+  toy_parse (t_size s) toks = Some (data, text, labels, ins) ->
+  (forall ln name vals lit, In (ln, TLVar name vals) data -> In lit vals -> ~ long_decimal lit) /\
+  (forall ln inl op lit, In (ln, TLInstr inl op (TAddrLit lit)) text -> is_address_type op = true ->
+     ~ long_decimal lit).
+Proof. exact toy_load_ok_literals_lem. Qed.
+Print Assumptions toy_load_ok_literals.
 
 (** ** 7. The documented programs (webgui/src/components/toy/ToyHelp.vue), tokenised by hand;
        line numbers are those of the help text; results confirmed on the Python simulator *)
@@ -419,9 +440,14 @@ Example toy_load_outcomes_ex :
     = Some (PMemSize 2) /\
   snd (toy_load (toy_init 1 1 false) [(1, TLInstr None INC TNoOperand); (2, TLInstr None INC TNoOperand)])
     = Some (PMemSize 1) /\
-  (* a decimal literal of 4301 digits: the ValueError of int() is not a parser error *)
-  snd (toy_load st0 [(7, TLInstr None LDA (TAddrLit (repeat 49 4301)))]) = Some (PUncaught 7) /\
-  tokens_wf [(7, TLInstr None LDA (TAddrLit (repeat 49 4301)))].
+  (* a decimal literal of 4301 digits, as an operand and as a data word: a syntax error of
+     that line *)
+  snd (toy_load st0 [(7, TLInstr None LDA (TAddrLit (repeat 49 4301)))]) = Some (PSyntax 7) /\
+  snd (toy_load st0 [(1, TLDirective 1); (5, TLVar 1 [[49]; repeat 49 4301])]) = Some (PSyntax 5) /\
+  tokens_wf [(7, TLInstr None LDA (TAddrLit (repeat 49 4301)))] /\
+  (* only a token line the tokenizer cannot produce (address mnemonic without operand) gives a
+     non-parser error *)
+  snd (toy_load st0 [(3, TLInstr None LDA TNoOperand)]) = Some (PUncaught 3).
 Proof.
   repeat split; try (vm_compute; reflexivity).
   intros ln inl op [H|[]]. discriminate H.
